@@ -1,7 +1,7 @@
 #!/bin/bash
 # runs every thorough check sequentially; prints one line per property
 cd "$(dirname "$0")"
-for p in C17 C20 C11 C07 C05 C08 C10 C12 C19 C09 C13 C06; do
+for p in C15 C16 C14 C03 C04 C02 C01 C13 C17 C20 C11 C07 C05 C08 C10 C12 C19 C06 C09; do
   s=$(date +%s); ./check $p --tier thorough > thorough_$p.log 2>&1; rc=$?; e=$(( $(date +%s)-s ))
   echo "$p rc=$rc ${e}s"; grep -E "^VIOLATION|^KNOWN-FINDING|^INCONCLUSIVE" thorough_$p.log | cut -c1-250 | head -4
 done
